@@ -260,7 +260,13 @@ def run_case(case, ctx):
                 for m in inds:
                     p, rot = build.pose_at(s, m)
                     loc = rot.apply(V - p, inverse=True)
-                    on = body.dist(loc) <= 1e-6 * body.L + 1e-9 * float(np.max(np.abs(V)) + 1e-300)
+                    slab = 0.0
+                    if s["cls"] == "Triangle":
+                        # documented drawing convention: when the magnetization is normal to the sheet it is drawn as a
+                        # slab of half thickness 1e-3 * |(v1-v0) x (v2-v1)| so that both colours show
+                        tv = np.asarray(s["vertices"], dtype=float)
+                        slab = 1.01e-3 * float(np.linalg.norm(np.cross(tv[1] - tv[0], tv[2] - tv[1])))
+                    on = body.dist(loc) <= 1e-6 * body.L + 1e-9 * float(np.max(np.abs(V)) + 1e-300) + slab
                     explained |= on
                     if not np.any(on):
                         out.append(Violation({**sig0, "sub": "object_not_drawn_at_frame", "cls": s["cls"], "frame_is_last": m == n_path - 1},
